@@ -81,9 +81,9 @@ var checks = map[string]checkSpec{
 		Rule: "1-4 goroutines share one codec value (gzip at two levels, snappy framed/unframed/faster/best, lz4, zstd at two levels) and each runs a generated history of streams through the pooled readers and writers: clean round trips with generated Write partitions and Read buffer sizes biased to the 32 KiB / 64 KiB boundaries, the ReadFrom / WriteTo fast paths, streams written by reference encoders (stdlib gzip incl. multi-member, golang/snappy raw blocks, eapache xerial, hand-framed multi-block xerial, pierrec lz4 and klauspost zstd with other options), sinks that fail permanently or once at a generated byte, sources that are truncated or fail at a generated byte (also returning data and error together), streams abandoned mid-way with and without Close. The scheduler switches goroutines inside the simulated Read/Write calls so pooled objects migrate between goroutines in seed-decided order; pools are emptied before each run so that one run is one self-contained history. Oracle: payload equality, acceptance by the reference decoder of the format used directly, prefix-only output and reported errors under faults.",
 	},
 	"C05": {
-		Scenarios: []scnSpec{{Name: "records", Share: 0.7}, {Name: "writer", Params: "faults=0", Share: 0.3}},
+		Scenarios: []scnSpec{{Name: "records", Share: 0.6}, {Name: "writer", Params: "faults=0", Share: 0.2}, {Name: "writer", Params: "faults=2", Share: 0.2}},
 		Quick:     40 * time.Second, Thorough: 10 * time.Minute, Level: "exploration",
-		Rule: "Consume: partitions pre-loaded with generated physical layouts (uncompressed format 0, formats 1 and 2 with every codec, v1 wrappers with dense and gapped relative inner offsets, compaction holes, headers, control batches, fetch versions 2..11 with down-conversion) are fetched concurrently through Client.Fetch and Conn.ReadBatch; the oracle is the independent decoder run over the very bytes the broker model sent: same records, offsets, null-vs-empty keys/values, headers, millisecond timestamps; control batches hidden by Client.Fetch; key/value bytes of records held back while other responses are decoded must still be intact when finally read; a fault flips one byte inside the checksummed part of one batch and no record of that batch may surface. Produce: Conn.WriteMessages / WriteCompressedMessages, Client.Produce and (writer scenario) Writer with nil/empty keys and values, headers and sub-millisecond timestamps; every request is strictly decoded by the broker model (lengths, CRC, counts, offset deltas) and the decoded records are compared with what was submitted.",
+		Rule: "Consume: partitions pre-loaded with generated physical layouts (uncompressed format 0, formats 1 and 2 with every codec, v1 wrappers with dense and gapped relative inner offsets, compaction holes, headers, control batches, fetch versions 2..11 with down-conversion) are fetched concurrently through Client.Fetch and Conn.ReadBatch; the oracle is the independent decoder run over the very bytes the broker model sent: same records, offsets, null-vs-empty keys/values, headers, millisecond timestamps; control batches hidden by Client.Fetch; key/value bytes of records held back while other responses are decoded must still be intact when finally read; a fault flips one byte inside the checksummed part of one batch and no record of that batch may surface. Produce: Conn.WriteMessages / WriteCompressedMessages, Client.Produce and (writer scenario, fault-free and with broker error codes that make the Writer retry) Writer with nil/empty keys and values, headers and sub-millisecond timestamps; every request is strictly decoded by the broker model (lengths, CRC, counts, offset deltas) and the decoded records are compared with what was submitted.",
 	},
 	"C04": {
 		Scenarios: []scnSpec{{Name: "fields", Share: 0.5}, {Name: "fields", Flavour: "unsafe", Share: 0.25}, {Name: "connerr", Share: 0.1}, {Name: "queries", Share: 0.15}},
